@@ -170,7 +170,10 @@ func main() {
 	}
 	var wg sync.WaitGroup
 	missing := false
-	for _, h := range sel {
+	// small harnesses first, and no single harness may hold the whole pool while
+	// others are waiting
+	sort.SliceStable(sel, func(i, j int) bool { return sel[i].Workers < sel[j].Workers })
+	for hi, h := range sel {
 		pkg := pkgs[h.PkgRel]
 		if pkg == nil {
 			fmt.Fprintf(os.Stderr, "package %s not loaded\n", h.PkgRel)
@@ -207,6 +210,9 @@ func main() {
 		}
 		if nw > len(machines) {
 			nw = len(machines)
+		}
+		if rest := len(sel) - hi - 1; rest > 0 && nw > len(machines)*3/4 {
+			nw = len(machines) * 3 / 4
 		}
 		ms := make([]*interp.Machine, 0, nw)
 		for len(ms) < nw {
